@@ -276,27 +276,36 @@ var lockWatch struct {
 
 const selfDeadlockMsg = "self-deadlock: the lock of stack %#x is requested while it is still held (a call returned without releasing it, or a locked method re-entered a locking method)"
 
-func lockWatchHook(ev string, id uintptr) {
+func lockWatchHook(ev string, id uintptr) {} // (kept for InstallLockWatch's bookkeeping; the work is done by lockWatchHookMtx)
+
+// lockWatchHookMtx tracks the lock by the identity of the sync.Mutex (what a goroutine really blocks on): two
+// instances that were handed the same mutex are one lock.
+func lockWatchHookMtx(ev string, id, mtx uintptr) {
+	key := mtx
+	if key == 0 {
+		key = id
+	}
 	switch ev {
 	case "lock.want":
-		if lockWatch.held[id] {
+		if lockWatch.held[key] {
 			lockWatch.tripped = fmt.Sprintf(selfDeadlockMsg, id)
 			panic(lockWatch.tripped)
 		}
 	case "lock.held":
-		lockWatch.held[id] = true
+		lockWatch.held[key] = true
 	case "lock.released":
-		delete(lockWatch.held, id)
+		delete(lockWatch.held, key)
 	}
 }
 
 // InstallLockWatch (re-)installs the monitor; property functions that borrow
 // stackage.VerifHook for a section call it when they are done.
 func InstallLockWatch() {
+	stackage.VerifHook = nil
 	if lockWatch.on {
-		stackage.VerifHook = lockWatchHook
+		stackage.VerifHookMtx = lockWatchHookMtx
 	} else {
-		stackage.VerifHook = nil
+		stackage.VerifHookMtx = nil
 	}
 }
 
@@ -384,8 +393,9 @@ func warmUpPackage() {
 // touched). Used as the process warm-up and, by C11, between a query and its repetition.
 func foreignZeroTraffic(families ...string) {
 	prev := stackage.VerifHook
-	stackage.VerifHook = nil
-	defer func() { stackage.VerifHook = prev }()
+	prevM := stackage.VerifHookMtx
+	stackage.VerifHook, stackage.VerifHookMtx = nil, nil
+	defer func() { stackage.VerifHook, stackage.VerifHookMtx = prev, prevM }()
 	guard(func() {
 		var zs MyStack
 		var zss MyStackS
@@ -468,6 +478,7 @@ func safeRun[C any](run func(C) (Stats, error), c C) (st Stats, err error) {
 		}
 		if lockWatch.on {
 			stackage.VerifHook = nil
+			stackage.VerifHookMtx = nil
 			if lockWatch.tripped != "" && err == nil {
 				err = &Violation{Key: "self-deadlock", Msg: lockWatch.tripped}
 			}
@@ -476,7 +487,8 @@ func safeRun[C any](run func(C) (Stats, error), c C) (st Stats, err error) {
 	if lockWatch.on {
 		lockWatch.held = map[uintptr]bool{}
 		lockWatch.tripped = ""
-		stackage.VerifHook = lockWatchHook
+		stackage.VerifHook = nil
+		stackage.VerifHookMtx = lockWatchHookMtx
 	}
 	return run(c)
 }
